@@ -84,7 +84,8 @@ def check(ctx):
     results = [t[1] for t in triples]
     for c, r, m in triples:
         nfail = len(ctx.failures)
-        judge(ctx, c, r, m)
+        with ctx.guard(c):
+            judge(ctx, c, r, m)
         # refine the signature of output mismatches for failure scenarios
         for f in ctx.failures[nfail:]:
             if f['sig'] == 'stream-output-differs-from-map':
@@ -116,7 +117,8 @@ def replay(ctx, data):
     case.setdefault('kind', 'src' if case.get('tail') is not None else 'e')
     case.setdefault('k', 0)
     for c, r, m in c01.execute([case], workers=1):
-        judge(ctx, c, r, m)
+        with ctx.guard(c):
+            judge(ctx, c, r, m)
 
 
 if __name__ == '__main__':
